@@ -128,6 +128,52 @@ def execute(engine, prop, tier, tape, index=0, known=None, keep_trace=400):
     return out
 
 
+def execute_isolated(engine, prop, tier, tape, index=0, known=None,
+                     keep_trace=400):
+    """Like execute(), but in a forked child: the run starts from the
+    pristine process state (nothing of rig has been *called* in the parent),
+    so state the code under test keeps between calls cannot leak from one run
+    into the next and a replay in a fresh interpreter sees the same world."""
+    import pickle
+    r, wfd = os.pipe()
+    pid = os.fork()
+    if pid == 0:
+        code = 0
+        try:
+            os.close(r)
+            o = execute(engine, prop, tier, tape, index, known, keep_trace)
+            with os.fdopen(wfd, "wb") as f:
+                f.write(pickle.dumps(o.as_dict()))
+        except BaseException:
+            code = 3
+        finally:
+            os._exit(code)
+    os.close(wfd)
+    with os.fdopen(r, "rb") as f:
+        data = f.read()
+    os.waitpid(pid, 0)
+    out = RunOutcome()
+    if not data:
+        for k in RunOutcome.__slots__:
+            setattr(out, k, None)
+        out.index, out.seed = index, tape.seed
+        out.harness_error = "isolated run died without a result"
+        out.faults, out.probes, out.known_hits = {}, {}, []
+        out.sim_seconds = 0.0
+        out.n_events = out.draws = out.ops_completed = 0
+        out.nontrivial = False
+        return out
+    for k, v in pickle.loads(data).items():
+        setattr(out, k, v)
+    return out
+
+
+def run_engine(engine, *args, **kwargs):
+    if getattr(engine, "ISOLATE", False):
+        return execute_isolated(engine, *args, **kwargs)
+    return execute(engine, *args, **kwargs)
+
+
 def _chunk_worker(args):
     engine_name, prop, tier, verif_seed, indices, known, timeout = args
     faulthandler.dump_traceback_later(timeout, exit=True)
@@ -136,8 +182,8 @@ def _chunk_worker(args):
     results = []
     for i in indices:
         seed = derive_seed(verif_seed, prop, i)
-        o = execute(engine, prop, tier, Tape(seed=seed), index=i, known=known,
-                    keep_trace=120)
+        o = run_engine(engine, prop, tier, Tape(seed=seed), index=i,
+                       known=known, keep_trace=120)
         d = o.as_dict()
         if o.violation is None and o.harness_error is None:
             d["segments"] = None
@@ -162,7 +208,7 @@ def shrink(engine, prop, tier, segments, monitor, known, budget_s=60.0,
         if runs[0] >= max_runs or time.time() - t0 > budget_s:
             return None
         runs[0] += 1
-        o = execute(engine, prop, tier, Tape(segments=segs), known=known)
+        o = run_engine(engine, prop, tier, Tape(segments=segs), known=known)
         if o.harness_error is None and o.violation is not None and \
                 o.violation["monitor"] == monitor:
             return o
@@ -364,6 +410,11 @@ def main(argv=None):
         print("  monitor=IMPORT %s" % viol["message"])
         return 1
 
+    # import (never call) the code under test once, before forking
+    from .seams import rig_module
+    for mname in getattr(engine, "RIG_MODULES", []):
+        rig_module(mname)
+
     indices = list(range(n_runs))
     chunks = [indices[i:i + chunk] for i in range(0, len(indices), chunk)]
     results = {}
@@ -551,8 +602,11 @@ def replay(engine, prop, path, known):
         print("VIOLATION property=%s replay=%s" % (prop, path))
         print("  monitor=IMPORT %s" % err)
         return 1
-    o = execute(engine, prop, doc.get("tier", "quick"),
-                Tape(segments=doc["tape"]), known=[])
+    from .seams import rig_module
+    for mname in getattr(engine, "RIG_MODULES", []):
+        rig_module(mname)
+    o = run_engine(engine, prop, doc.get("tier", "quick"),
+                   Tape(segments=doc["tape"]), known=[])
     if o.harness_error:
         print("HARNESS-ERROR during replay:\n" + o.harness_error)
         return 2
